@@ -5,7 +5,7 @@ CHECK = {
     "level": "exploration",
     "engine": "manager-scenario-engine",
     "technique": "stateful property testing (rapid state machine) of the service with a harness-owned schedule of background job completions; invariant evaluated inside the service loop after every step",
-    "rule": ('scenario = generated UDP traffic (3-8 flows, up to 26 datagrams with payloads from a small pool, cut into 2-5 capture files so flows continue across captures) plus a rapid state-machine history of: importing the next capture(s), tag add / query edit / delete / colour, mark add / remove, converter attach / detach / reset, opening / using / releasing views, and *delivering the completion of a parked background job* (import, tagging, merge, convert) chosen by the generator - every job parks at a gate right before it posts its completion to the service loop, so the order of completions relative to API calls and to each other is generated; '
+    "rule": ('scenario = generated UDP traffic (3-8 flows, up to 26 datagrams with payloads from a small pool, cut into 2-5 capture files so flows continue across captures) plus a rapid state-machine history of: importing the next capture(s), tag add / query edit / delete / colour, mark add / remove, converter attach / detach / reset, opening / using / releasing views, and *delivering the completion of a parked background job* (import, tagging, merge, convert) chosen by the generator - every job parks at a gate right before it posts its completion to the service loop, so the order of completions relative to API calls and to each other is generated. Scenario variants added later: one scenario in sixteen has 63/64/65/127/128 single-datagram flows (bitmap word boundaries); one import in eight also queues an upload that is no capture (empty, garbage, cut header); streams whose payload contains "x5" make the harness converter answer with a stray line in front of its output (the service gives up on them: no cached output may exist); tag/d, which no other tag refers to, may get a definition with a sub-query (ground truth by vq.EvalNFSub: some visible stream per sub-query name makes every condition true); view checks also run two-tag searches (or / and / and-not / or-not of two tags) against the Boolean combination of the ground truths.; '
              "after every step, inside the service loop: for every tag and every visible stream not pending re-evaluation, the stored membership equals the tag's current definition evaluated from scratch (vq.EvalNF on the stream read through the served index files, cached converter output included, referenced tags by definition); after settling also through a fresh view: searches `type:name` / `-type:name` and the tags shown per stream (all prefetched) equal the ground truth for all streams. Non-trivial: an invalidating event (import/convert delivery, tag or mark change) happened while a tagging job was parked between start and delivery, and a tagging result was delivered."),
     "level_text": 'invariant checked after every step of generated histories with generated completion orders; finds lost invalidations / reference-count and snapshot errors that need a specific interleaving; no absence claim',
     "level_note": 'trusts harness/vq EvalNF as the meaning of a definition; while a converter job is parked (its output is on disk but the service has not been told) tags looking at converter output are not asserted; tag definitions with converter-output filters are excluded while F-C06-converter-reset-stale is open; relative-time tags are rejected by the service and not generated',
